@@ -202,6 +202,8 @@ class Tr:
             return "(" + op.join(self.expr(v) for v in e.values) + ")"
         if isinstance(e, ast.UnaryOp) and isinstance(e.op, ast.Not):
             return f"(!{self.expr(e.operand)})"
+        if isinstance(e, ast.IfExp):
+            return f"(if {self.expr(e.test)} then {self.expr(e.body)} else {self.expr(e.orelse)})"
         if isinstance(e, ast.Call):
             return self.call(e)
         self.fail(e, "expression outside the subset")
@@ -448,14 +450,20 @@ def intro_response_parts(com_cls) -> str:
     # (2) introductions = [] ; if/elif chain ; for introduction in introductions: discover_address(...)
     idx = next((i for i, s in enumerate(body) if isinstance(s, ast.Assign) and len(s.targets) == 1
                 and isinstance(s.targets[0], ast.Name) and isinstance(s.value, ast.List) and not s.value.elts), None)
-    if idx is None or idx + 2 >= len(body) or not isinstance(body[idx + 1], ast.If):
+    if idx is None:
+        raise TranslatorError("on_introduction_response: `<list> = []` followed by an if-chain not found")
+    k = idx + 1
+    while k < len(body) and isinstance(body[k], ast.Assign) and len(body[k].targets) == 1 \
+            and isinstance(body[k].targets[0], ast.Name):
+        k += 1          # hoisted reads / named conditions in front of the chain
+    if k + 1 >= len(body) or not isinstance(body[k], ast.If):
         raise TranslatorError("on_introduction_response: `<list> = []` followed by an if-chain not found")
     lname = body[idx].targets[0].id
     if lname in LEAN_RESERVED:
         raise TranslatorError(f"on_introduction_response: list name `{lname}` clashes with a Lean keyword")
-    tr2 = Tr("on_introduction_response", {lname}, set())
-    chain = tr2.stmts([body[idx + 1]], 1)
-    loop = body[idx + 2]
+    tr2 = Tr("on_introduction_response", {lname}, set(), auto_locals=True)
+    chain = tr2.stmts(body[idx + 1:k + 1], 1)
+    loop = body[k + 1]
     if not (isinstance(loop, ast.For) and isinstance(loop.target, ast.Name) and _src(loop.iter) == lname
             and not loop.orelse and len(loop.body) == 1
             and _src(loop.body[0]) == f"self.network.discover_address(peer, {loop.target.id}, self.community_id, "
